@@ -327,4 +327,70 @@ theorem ctime_s_runs (cfg : Cfg) (dest dmax timer : Nat) (db : Bos) (text n : Na
   · exact (timeTail_runs cfg dest dmax db text n lf s' hd h26 hb hnone hrw htext).conseq
       (fun r s ⟨h1, h2⟩ => ⟨h1, Or.inr h2⟩)
 
+/-! ## concrete states: the excluded point (a text of `dmax` characters) and a non-vacuity example -/
+
+/-- dest = 100 (26 cells holding 7, no NUL), libc's "text" = 26 `A`s at 200 (terminated at 226), a valid `struct tm` at 300
+(`tm_mday = 1`, everything else 0), `*timer = 0` at 400; everything mapped and readable, only dest writable -/
+def timeWSt : St :=
+  { data := fun a => if 100 ≤ a ∧ a < 126 then 7 else if 200 ≤ a ∧ a < 226 then 65 else if a = 303 then 1 else 0
+    mapped := fun _ => true, rd := fun _ => true
+    wr := fun a => decide (100 ≤ a ∧ a < 126) }
+
+theorem timeWSt_rw : RW timeWSt 100 26 := by
+  intro i hi
+  refine ⟨rfl, ?_, rfl⟩
+  simp only [timeWSt, decide_eq_true_eq]
+  omega
+
+/-- the text of the excluded point: 26 characters, readable, away from dest -/
+theorem timeWSt_text : TextOk timeWSt 100 26 200 26 := by
+  intro _
+  refine ⟨⟨fun j hj => ?_, by simp [timeWSt], fun _ _ => ⟨rfl, rfl⟩⟩, Or.inl (by decide), fun h => by omega⟩
+  have h1 : ¬ (100 ≤ 200 + j ∧ 200 + j < 126) := by omega
+  have h2 : 200 ≤ 200 + j ∧ 200 + j < 226 := by omega
+  simp [timeWSt, h1, h2]
+
+/-- state of the non-vacuity examples: dest = 100 (26 cells holding 7), the 3-character text `"AAA"` at 200, a valid
+`struct tm` at 300 (`tm_mday = 1`), `*timer = 0` at 400; only these extents are mapped and readable, only dest is writable -/
+def osTimeExSt : St :=
+  { data := fun a => if 100 ≤ a ∧ a < 126 then 7 else if 200 ≤ a ∧ a < 203 then 65 else if a = 303 then 1 else 0
+    mapped := fun a => decide (100 ≤ a ∧ a < 126 ∨ 200 ≤ a ∧ a < 204 ∨ 300 ≤ a ∧ a < 312 ∨ a = 400)
+    rd := fun a => decide (100 ≤ a ∧ a < 126 ∨ 200 ≤ a ∧ a < 204 ∨ 300 ≤ a ∧ a < 312 ∨ a = 400)
+    wr := fun a => decide (100 ≤ a ∧ a < 126) }
+
+theorem osTimeExSt_rw : RW osTimeExSt 100 26 := by
+  intro i hi
+  simp only [osTimeExSt, decide_eq_true_eq]
+  omega
+
+theorem osTimeExSt_text : TextOk osTimeExSt 100 26 200 3 := by
+  intro _
+  refine ⟨⟨fun j hj => ?_, by simp [osTimeExSt], fun j hj => ?_⟩, Or.inl (by decide), fun h => by omega⟩
+  · have h1 : ¬ (100 ≤ 200 + j ∧ 200 + j < 126) := by omega
+    have h2 : 200 ≤ 200 + j ∧ 200 + j < 203 := by omega
+    simp [osTimeExSt, h1, h2]
+  · simp only [osTimeExSt, decide_eq_true_eq]; omega
+
+theorem osTimeExSt_tm : ∀ i, i < 12 → osTimeExSt.mapped (300 + i) = true ∧ osTimeExSt.rd (300 + i) = true := by
+  intro i hi
+  simp only [osTimeExSt, decide_eq_true_eq]; omega
+
+theorem osTimeExSt_timer : osTimeExSt.mapped 400 = true ∧ osTimeExSt.rd 400 = true := by
+  simp [osTimeExSt]
+
+/-- the excluded point, asctime_s: a valid `tm`, `dmax = 26`, a text of 26 characters: ESNOSPC is reported and dest is left
+exactly as it was — no NUL in `dest[0..26)`, `dest[0] ≠ 0` -/
+theorem asctime_s_nospc_point :
+    ∃ st', exec (asctime_s {} 100 26 300 none 200) timeWSt = .ok (ESNOSPC, st') ∧
+      st'.events = [.handler .str ESNOSPC] ∧ st'.data = timeWSt.data := ⟨_, rfl, rfl, rfl⟩
+
+theorem ctime_s_nospc_point :
+    ∃ st', exec (ctime_s {} 100 26 400 none 200) timeWSt = .ok (ESNOSPC, st') ∧
+      st'.events = [.handler .str ESNOSPC] ∧ st'.data = timeWSt.data := ⟨_, rfl, rfl, rfl⟩
+
+theorem timeWSt_no_nul : ¬ ∃ i, i < 26 ∧ timeWSt.data (100 + i) = 0 := by
+  intro ⟨i, hi, h⟩
+  have : 100 ≤ 100 + i ∧ 100 + i < 126 := by omega
+  simp [timeWSt, this] at h
+
 end SafeC
